@@ -93,6 +93,10 @@ class ScheduleHistory(History):
         """current nominal period (for deriving queries)"""
         return 1.0
 
+    def roundoff_factor(self, ans):
+        """number of ulps that count as round-off for the not-earlier clause"""
+        return 8.0
+
     def judge_member(self, t, ans, initial):
         raise NotImplementedError
 
@@ -107,7 +111,7 @@ class ScheduleHistory(History):
             ans = float(ans)
         if math.isnan(ans):
             self.fail("answer is NaN", t, ans, "nan")
-        tol = 8 * max(ulp(t), ulp(ans) if math.isfinite(ans) else 0.0)
+        tol = self.roundoff_factor(ans) * max(ulp(t), ulp(ans) if math.isfinite(ans) else 0.0)
         if ans < t - tol:
             self.fail("answer earlier than the time asked about", t, ans, "earlier")
         if self.prev is not None:
@@ -309,6 +313,17 @@ class GeometricHistory(ScheduleHistory):
         A = self.prev if self.prev is not None and math.isfinite(self.prev) else float(self.init["scale"])
         return A * (float(self.init["factor"]) - 1)
 
+    def roundoff_factor(self, ans):
+        # A lattice index k is resolved by log(t/scale)/log(factor) only to a few eps*|k|,
+        # i.e. to a relative time error of eps*|k|*ln(factor): a query a few ulp above the
+        # lattice point of a large index legitimately gets that lattice point (found by the
+        # thorough tier at k = 50, factor 10: 23 ulp).
+        s, f = float(self.init["scale"]), float(self.init["factor"])
+        if not (math.isfinite(ans) and ans > 0):
+            return 8.0
+        k = abs(math.log(ans / s) / math.log(f))
+        return 8.0 + 8.0 * k * math.log(f)
+
     def judge_member(self, t, ans, initial):
         s, f = float(self.init["scale"]), float(self.init["factor"])
         if not math.isfinite(ans) or ans <= 0:
@@ -402,8 +417,8 @@ def sub(name, cls, q, t):
 
 
 SUBCHECKS = [
-    sub("ConstantMachine", ConstantHistory, 2400, 120000),
-    sub("LogarithmicMachine", LogarithmicHistory, 2400, 120000),
-    sub("GeometricMachine", GeometricHistory, 2400, 120000),
-    sub("FixedMachine", FixedHistory, 2400, 120000),
+    sub("ConstantMachine", ConstantHistory, 2400, 40000),
+    sub("LogarithmicMachine", LogarithmicHistory, 2400, 40000),
+    sub("GeometricMachine", GeometricHistory, 2400, 40000),
+    sub("FixedMachine", FixedHistory, 2400, 40000),
 ]
